@@ -1,10 +1,11 @@
 import BridgeVerif.Spec.JsonLog
 /-!
-# `json.loads (json.dumps j) = j` for the executable model in `Model/Json.lean`, and the streaming frame
+# Strings: the reader's `scanString` undoes the writer's `escChar` escaping  (part of `JsonRoundTrip`)
 
-* `jsonLoad_pyDumps` : the reader undoes the writer on every value without duplicate keys;
-* `jsonLoad_frame`   : the text written by `open(); write …; close()` is one document `{tag: [records…]}`;
-* `jsonLoad_unclosed`: without `close()` the text is not a document.
+`scanString` cannot be unfolded through its equation lemmas (their generation runs out of recursion depth, and a direct
+`rfl` makes the kernel evaluate `u - 0xd800` in unary), so it is unfolded one level by hand: `scanString_stepA` exposes
+the `brecOn` functional `scanString._f` applied to an abstract table `B` of recursive results, and the per-character
+facts are proved about `scanString._f (fuel + 1) B`.
 -/
 namespace Bridge
 
